@@ -77,7 +77,6 @@ Inductive lexerr :=
 | EInvalidEscape          (* LexicalError::InvalidEscapeSequence *)
 | EInvalidAscii           (* LexicalError::InvalidAsciiEscapeCode *)
 | EEof                    (* input ends inside the string (the parser reports it) *)
-| EPanicLoneCR            (* debug_assert in normalize_line_endings fails (debug builds) *)
 | ENotAString             (* lex_string called on something not starting with a quote *)
 | EFuel.                  (* unreachable: see lex_string_fuel_enough *)
 
@@ -112,13 +111,14 @@ Definition escape_char (c : N) : option N :=
   else if c =? c_t then Some c_tab
   else None.
 
-(* lexer.rs: normalize_line_endings = replace CRLF by LF, then debug_assert that no CR is left *)
+(* lexer.rs: normalize_line_endings = replace CRLF by LF; handle_string_token then rejects a
+   literal that still contains a CR (a lone one) with LexicalError::Generic *)
 Definition normalize_line_endings (s : str) : str := replace_pair c_cr c_nl [c_nl] s.
 Definition has_cr (s : str) : bool := existsb (fun c => c =? c_cr) s.
 
 Definition lit_token (run rest : str) : tokres :=
   let n := normalize_line_endings run in
-  if has_cr n then TkErr EPanicLoneCR else Tk (TLit n) rest.
+  if has_cr n then TkErr EGeneric else Tk (TLit n) rest.
 
 (* One token of the logos automaton of StringToken: longest match, Error wins a tie.
      Error         CR followed by any character but LF
